@@ -257,6 +257,18 @@ pub fn small_opts() -> SrcOpts {
   opts
 }
 
+fn stage_opts() -> SrcOpts {
+  let opts = small_opts();
+  opts
+}
+
+/// the same stage, driven by bytes (coverage-guided tier)
+pub fn erased() -> crate::fuzz::Erased {
+  let corpus: &'static Corpus = Box::leak(Box::new(Corpus::load()));
+  let opts: &'static SrcOpts = Box::leak(Box::new(stage_opts()));
+  crate::fuzz::Erased::generic("C05", "rules", move || strategy(opts, 4), move |c, st| interpret(corpus, opts, c, st), check)
+}
+
 pub fn run(cfg: &RunCfg) -> i32 {
   let mut report = Report::new(
     cfg,
@@ -270,10 +282,11 @@ pub fn run(cfg: &RunCfg) -> i32 {
   }
   let corpus = Corpus::load();
   crate::replay_known::<Case>(&mut report, &known, check);
-  let opts = small_opts();
+  let opts = stage_opts();
   let total = cfg.budget(12_000, 300_000);
   let o = drive(cfg, "rules", total, &known, || strategy(&opts, 4), |c, st| interpret(&corpus, &opts, c, st), check);
   report.absorb("rules", o);
   report.floor("nontrivial", 0.15, "evaluations");
+  crate::fuzz::stage(cfg, &mut report, &known, 20000);
   report.finish()
 }
